@@ -97,7 +97,13 @@ pub fn replay(j: &J) -> i32 {
                 c03::case(&ctx, shard, index, &mut rep)
             }
         }
-        "C12" => c12::replay_shard(&ctx, shard, &mut rep),
+        "C12" => {
+            if j.get("kind").and_then(|k| k.as_str()) == Some("modes") {
+                c12::replay_modes(&ctx, j.get("k").and_then(|k| k.as_i64()).unwrap_or(0) as usize, &mut rep)
+            } else {
+                c12::replay_shard(&ctx, shard, &mut rep)
+            }
+        }
         "C06" => c06::replay_shard(&ctx, shard, &mut rep),
         "C14" => c14::replay_shard(&ctx, shard, &mut rep),
         "C04" => c04::replay(&ctx, j, &mut rep),
